@@ -28,7 +28,7 @@ def _parse(stdout, stderr=""):
 def _query(path, timeout_s, names, solvers, grace):
     """Run all solvers on one file concurrently; once one has decided, the others get `grace` more seconds (cross-check), then are stopped."""
     env = dict(os.environ)
-    env["PYTHONPATH"] = ROOT
+    env["PYTHONPATH"] = (env["VERIF_REPO"] + os.pathsep if env.get("VERIF_REPO") else "") + ROOT
     procs = {}
     for which in solvers:
         procs[which] = subprocess.Popen([sys.executable, "-m", "vlib.smt_worker", which, path, str(timeout_s)] + list(names), stdout=subprocess.PIPE, stderr=subprocess.PIPE, text=True, env=env, cwd=ROOT)
